@@ -380,7 +380,11 @@ class DigestCredentialFactory:
         auth = {}
         for key, bare, quoted in parts:
             value = (quoted or bare).strip()
-            auth[nativeString(key.strip())] = value
+            try:
+                name = nativeString(key.strip())
+            except UnicodeError:
+                raise error.LoginFailed("Invalid response, invalid parameter name")
+            auth[name] = value
 
         username = auth.get("username")
         if not username:
